@@ -1,6 +1,6 @@
 SPECIFICATION MCSpec
 CONSTANTS
- Addrs = {1, 2}
+ Addrs = {1}
  DefaultRetry = 5
  Slack = 0
  FreeMax = 10
